@@ -1129,10 +1129,25 @@ func backSlice(v ssa.Value, atoms *sliceAtoms, seen map[ssa.Value]bool, depth in
 		if f := structFieldVar(x.X.Type(), x.Field); f != nil {
 			atoms.Fields[f] = true
 		}
+		// a field of a struct that was built in view (a parameter struct of a new type handed to a
+		// split-off helper, a local literal): what was stored into THAT field, not everything the
+		// struct carries
+		if vals, ok := carrierFieldValues(x.X, x.Field, 0); ok {
+			for _, sv := range vals {
+				backSlice(sv, atoms, seen, depth+1)
+			}
+			return
+		}
 		backSlice(x.X, atoms, seen, depth+1)
 	case *ssa.Field:
 		if f := structFieldVar(x.X.Type(), x.Field); f != nil {
 			atoms.Fields[f] = true
+		}
+		if vals, ok := carrierFieldValues(x.X, x.Field, 0); ok {
+			for _, sv := range vals {
+				backSlice(sv, atoms, seen, depth+1)
+			}
+			return
 		}
 		backSlice(x.X, atoms, seen, depth+1)
 	case *ssa.Alloc:
@@ -1406,4 +1421,87 @@ func (a *sliceAtoms) String() string {
 // parameters by type and position, never by name: a rename does not change behaviour.
 func paramTyped(p *ssa.Parameter, typeStr string) bool {
 	return short(p.Type().String()) == typeStr
+}
+
+// carrierFieldValues: base is (a pointer to, or a copy of) a struct of a NEW type that is built
+// by a literal in view - directly, or at every call site of the new function whose parameter it
+// is: the values stored into field idx of that literal.
+func carrierFieldValues(base ssa.Value, idx int, depth int) ([]ssa.Value, bool) {
+	w := curWorld
+	if w == nil || depth > 3 {
+		return nil, false
+	}
+	t := base.Type()
+	if p, ok := t.Underlying().(*types.Pointer); ok {
+		t = p.Elem()
+	}
+	nt, ok := t.(*types.Named)
+	if !ok || nt.Obj().Pkg() == nil || !w.isNewTypeName(short(nt.Obj().Pkg().Path())+"."+nt.Obj().Name()) {
+		return nil, false
+	}
+	fromAlloc := func(al *ssa.Alloc) ([]ssa.Value, bool) {
+		var out []ssa.Value
+		if al.Referrers() == nil {
+			return nil, false
+		}
+		for _, rf := range *al.Referrers() {
+			switch y := rf.(type) {
+			case *ssa.FieldAddr:
+				if y.Field != idx || y.Referrers() == nil {
+					continue
+				}
+				for _, r2 := range *y.Referrers() {
+					if st, ok := r2.(*ssa.Store); ok && st.Addr == ssa.Value(y) {
+						out = append(out, st.Val)
+					}
+				}
+			case *ssa.Store:
+				if y.Addr == ssa.Value(al) {
+					// the whole struct assigned from elsewhere: give up
+					if sub, ok := carrierFieldValues(y.Val, idx, depth+1); ok {
+						out = append(out, sub...)
+					} else {
+						return nil, false
+					}
+				}
+			}
+		}
+		return out, true
+	}
+	switch b := stripTrivial(base).(type) {
+	case *ssa.Alloc:
+		return fromAlloc(b)
+	case *ssa.UnOp:
+		if al, ok := b.X.(*ssa.Alloc); ok {
+			return fromAlloc(al)
+		}
+	case *ssa.Parameter:
+		fn := b.Parent()
+		if fn == nil || !w.isNewFn(fn) {
+			return nil, false
+		}
+		pi := -1
+		for i, q := range fn.Params {
+			if q == b {
+				pi = i
+			}
+		}
+		sites := w.callSitesOfNew(fn)
+		if pi < 0 || len(sites) == 0 {
+			return nil, false
+		}
+		var out []ssa.Value
+		for _, cs := range sites {
+			if pi >= len(cs.Common().Args) {
+				return nil, false
+			}
+			sub, ok := carrierFieldValues(cs.Common().Args[pi], idx, depth+1)
+			if !ok {
+				return nil, false
+			}
+			out = append(out, sub...)
+		}
+		return out, true
+	}
+	return nil, false
 }
